@@ -89,6 +89,28 @@ theorem lru_bound (cfg : Cfg) (htps : 0 < cfg.tps) (caps : List Nat) (t0 : Nat) 
   have := (run_inv htps h _ (start_inv cfg caps t0)).caches ch hch
   exact ⟨this.2.2, this.2.1⟩
 
+/-- **lock discipline and what it buys**: in the source every access to `_entries` is inside `with self._lock:` (so a
+    call of `get` / `put` is one atomic step and the threads of a worker drive the cache through a *sequence* of calls);
+    and for every such sequence — every interleaving — the capacity bound and key uniqueness hold -/
+theorem cache_calls_atomic :
+    Gen.C14.entriesOnlyUnderLock = true ∧
+    ∀ (c : Cache) (ops : List CacheOp), KeysDistinct c.entries → c.entries.length ≤ c.cap →
+      (applyOps c ops).1.cap = c.cap ∧ KeysDistinct (applyOps c ops).1.entries ∧
+        (applyOps c ops).1.entries.length ≤ c.cap :=
+  ⟨by decide, fun c ops h1 h2 => applyOps_bound ops c h1 h2⟩
+
+/-- **a `get` returns a stored entry or nothing** (for every sequence of calls): whatever any `get` returns, and whatever
+    the cache holds afterwards, was in the cache at the start or was `put` by one of the calls under that very key -/
+theorem cache_calls_sound (P : Nat → List Char → RC → Prop) (c : Cache) (ops : List CacheOp)
+    (hinit : ∀ e ∈ c.entries, P e.cid e.ikey e.rc)
+    (hput : ∀ cid k rc x, CacheOp.put cid k rc x ∈ ops → P cid k rc) :
+    (∀ e ∈ (applyOps c ops).1.entries, P e.cid e.ikey e.rc) ∧
+    (∀ cid k now rf rc, (CacheOp.get cid k now rf, some rc) ∈ (applyOps c ops).2 → P cid k rc) :=
+  applyOps_from P ops c hinit hput
+
+example : (applyOps ⟨1, []⟩ [.put 0 [] ⟨7, none, 0⟩ 10, .put 1 [] ⟨8, none, 0⟩ 10, .get 0 [] 3 none, .get 1 [] 3 none]).2.map (·.2)
+    = [none, none, none, some ⟨8, none, 0⟩] := by decide +kernel
+
 /-- **expiry alignment** (entries age from the token, a hit leaves the expiry alone): a live cache entry never outlives
     the call token it stands in for -/
 theorem cache_expiry_aligned (cfg : Cfg) (htps : 0 < cfg.tps) (hm : cfg.shape.missAnchor = .created)
